@@ -208,6 +208,7 @@ class BptkServer(Flask):
         self._bptk = bptk_factory() if bptk_factory is not None else None
         self._external_state_adapter = external_state_adapter
         self._instance_manager = InstanceManager(bptk_factory)
+        self._restore_guard = threading.Lock()  # one request at a time brings an externalised instance back
         self._bearer_token = bearer_token
 
         # Loading the full state on startup
@@ -1029,12 +1030,18 @@ class BptkServer(Flask):
         
         if(self._external_state_adapter == None):
             return False
-        
-        instance = self._external_state_adapter.load_instance(instance_uuid)
-        if instance == None:
-            return False
 
-        self._instance_manager.reconstruct_instance(instance.instance_id, instance.timeout, instance.time, instance.state)
-        return True
+        # two first requests for an instance that lives only in its state file must not both restore it: each would build
+        # its own engine from the same file, lock its own engine and step from the same clock
+        with self._restore_guard:
+            if self._instance_manager.is_valid_instance(instance_uuid):
+                return True
+
+            instance = self._external_state_adapter.load_instance(instance_uuid)
+            if instance == None:
+                return False
+
+            self._instance_manager.reconstruct_instance(instance.instance_id, instance.timeout, instance.time, instance.state)
+            return True
         
         
